@@ -521,7 +521,7 @@ def run(ctx):
     else:
         items = [drop_private(it) for c in diff.load_corpus("C50") for it in c["items"]]
         items += fixed_read_items() + fixed_write_items()
-        nr, nw = (700, 1000) if tier == "quick" else (15000, 25000)
+        nr, nw = (700, 1000) if tier == "quick" else (6000, 12000)
         items += [gen_read_item(rng, 3 if tier == "quick" else 4) for _ in range(nr)]
         items += [gen_write_item(rng, 3 if tier == "quick" else 4) for _ in range(nw)]
     for i, it in enumerate(items):
